@@ -6,16 +6,48 @@ V = os.path.dirname(os.path.dirname(os.path.abspath(__file__)))
 sys.path.insert(0, os.path.join(V, "sa")); sys.path.insert(0, os.path.join(V, "sa", "rules"))
 import extract, runner, selftest
 only = [a for a in sys.argv[1:] if not a.startswith("--")]
+opts = dict(a[2:].split("=", 1) if "=" in a else (a[2:], "1") for a in sys.argv[1:] if a.startswith("--"))
+JOBS = int(opts.get("jobs", "1"))
+WORKER = opts.get("worker")          # internal: worker index, writes its lines to --out instead of MATRIX.txt
 dirs = sorted(glob.glob(os.path.join(V, "seeded", "C*-*")))
 if only:
     dirs = [d for d in dirs if os.path.basename(d) in only or os.path.basename(d)[:3] in only]
 props = [f"C{i:02d}" for i in range(1, 20)]
-repo = os.path.join(selftest.SCRATCH + "-matrix", "repo")
+out_path = os.path.join(V, "seeded", "MATRIX.txt")
+if JOBS > 1 and WORKER is None:
+    # one scratch copy, target directory and facts configuration per worker
+    names = [os.path.basename(d) for d in dirs]
+    parts = [names[i::JOBS] for i in range(JOBS)]
+    procs = []
+    for i, part in enumerate(parts):
+        if part:
+            po = os.path.join(extract.CACHE, f"matrix-part-{i}.txt")
+            procs.append((po, subprocess.Popen([sys.executable, os.path.abspath(__file__), f"--worker={i}", f"--out={po}"] + part)))
+    lines = {}
+    if only and os.path.exists(out_path):
+        for l in open(out_path):
+            k, _, v = l.partition(":")
+            lines[k.strip()] = v.strip()
+    for po, pr in procs:
+        pr.wait()
+        if os.path.exists(po):
+            for l in open(po):
+                k, _, v = l.partition(":")
+                lines[k.strip()] = v.strip()
+            os.remove(po)
+    with open(out_path, "w") as f:
+        for k in sorted(lines):
+            f.write(f"{k}: {lines[k]}\n")
+    sys.exit(0)
+SUF = f"-w{WORKER}" if WORKER is not None else ""
+os.environ["VERIF_SCRATCH_SUFFIX"] = SUF
+repo = os.path.join(selftest.SCRATCH + "-matrix" + SUF, "repo")
 os.makedirs(repo, exist_ok=True)
 mods = {p: importlib.import_module(p.lower()) for p in props}
 lines = {}
-out_path = os.path.join(V, "seeded", "MATRIX.txt")
-if only and os.path.exists(out_path):
+if WORKER is not None:
+    out_path = opts["out"]
+if only and WORKER is None and os.path.exists(out_path):
     for l in open(out_path):
         k, _, v = l.partition(":")
         lines[k.strip()] = v.strip()
@@ -27,7 +59,7 @@ for d in dirs:
     if r.returncode:
         lines[name] = "PATCH DOES NOT APPLY"; print(name, lines[name]); continue
     try:
-        facts = extract.extract("selftest", repo=repo, target=os.path.join(extract.CACHE, "target-selftest"))
+        facts = extract.extract("selftest" + SUF, repo=repo, target=os.path.join(extract.CACHE, "target-selftest" + SUF))
     except RuntimeError as e:
         lines[name] = "DOES NOT BUILD"; print(name, lines[name]); continue
     fired = []
@@ -46,4 +78,9 @@ for d in dirs:
 with open(out_path, "w") as f:
     for k in sorted(lines):
         f.write(f"{k}: {lines[k]}\n")
-shutil.rmtree(selftest.SCRATCH + "-matrix", ignore_errors=True)
+shutil.rmtree(selftest.SCRATCH + "-matrix" + SUF, ignore_errors=True)
+if WORKER is not None:
+    shutil.rmtree(os.path.join(extract.CACHE, "target-selftest" + SUF), ignore_errors=True)
+    shutil.rmtree(os.path.join(extract.CACHE, "target-feat" + SUF), ignore_errors=True)
+    for d in glob.glob(os.path.join(extract.CACHE, "facts", "selftest" + SUF + "*")):
+        shutil.rmtree(d, ignore_errors=True)
